@@ -3,8 +3,8 @@
 
 An explicit model of *who may write what*.  A Python function body is translated (by `harness/translate_effects.py`,
 on every run, from the current source) into a flat list of effect statements over local names.  The model tracks, for every
-local name, the set of objects it **may denote** and the set of objects it **may reach** (elements, attributes), where the
-objects are
+local name, the set of objects it **may denote** (`top`), the objects those **directly hold** (`kids`: elements, attribute
+values) and everything **further below** (`deep`), where the objects are
 
 * `root i`  – the object the caller passed as parameter `i` itself,
 * `inner i` – everything reachable strictly below that object (lumped),
@@ -33,7 +33,7 @@ inductive Obj where
 /-- where a callee's return value / stored links come from, relative to the callee's parameters -/
 inductive Src where
   | top (j : Nat)      -- the objects argument `j` may denote
-  | deep (j : Nat)     -- the objects argument `j` may reach
+  | below (j : Nat)    -- the objects argument `j` may hold or reach
   | fresh              -- an object allocated by the callee
   | glob (g : Nat)
   deriving DecidableEq, Repr, Inhabited
@@ -43,8 +43,9 @@ structure Summary where
   writes  : List (Nat × Bool) := []   -- (parameter, `true` = below the object / `false` = the object itself)
   globals : List Nat := []            -- process-wide objects written
   retTop  : List Src := []            -- what the result may denote
-  retDeep : List Src := []            -- what the result may reach
-  links   : List (Nat × Src) := []    -- after the call, parameter `j` may reach `src`
+  retKids : List Src := []            -- what the result may directly hold
+  retDeep : List Src := []            -- what the result may reach further below
+  links   : List (Nat × Bool × Src) := []   -- after the call, parameter `j` may hold (`true`) / reach (`false`) `src`
   deriving Repr, Inhabited, DecidableEq
 
 inductive Stmt where
@@ -61,8 +62,13 @@ inductive Stmt where
   | call    (ret : Var) (f : Nat) (args : List (Option Var))   -- executed by the callee's summary
   deriving Repr, Inhabited, DecidableEq
 
-/-- (may denote, may reach) -/
-abbrev Cell := List Obj × List Obj
+/-- what a name may denote, what those objects may hold directly, what lies further below -/
+structure Cell where
+  top : List Obj := []
+  kids : List Obj := []
+  deep : List Obj := []
+  deriving Repr, Inhabited, DecidableEq
+
 abbrev Pts := List Cell
 
 def union (a b : List Obj) : List Obj := a ++ b.filter (fun o => !(a.contains o))
@@ -71,27 +77,35 @@ def sub (a b : List Obj) : Bool := a.all (fun o => b.contains o)
 
 def overlaps (a b : List Obj) : Bool := a.any (fun o => b.contains o)
 
-def Pts.get (P : Pts) (x : Var) : Cell := P.getD x ([], [])
+def Pts.get (P : Pts) (x : Var) : Cell := P.getD x {}
+
+def Cell.join (d c : Cell) : Cell := { top := union d.top c.top, kids := union d.kids c.kids, deep := union d.deep c.deep }
 
 /-- pointwise union at `x` (the table is extended with empty cells if needed) -/
 def Pts.add : Pts → Var → Cell → Pts
-  | [], 0, c => [(union [] c.1, union [] c.2)]
-  | [], x + 1, c => ([], []) :: Pts.add [] x c
-  | d :: P, 0, c => (union d.1 c.1, union d.2 c.2) :: P
+  | [], 0, c => [Cell.join {} c]
+  | [], x + 1, c => {} :: Pts.add [] x c
+  | d :: P, 0, c => Cell.join d c :: P
   | d :: P, x + 1, c => d :: Pts.add P x c
 
-/-- every name that may denote or reach one of `tgt` may now also reach `extra` -/
-def link (P : Pts) (tgt extra : List Obj) : Pts :=
-  P.map (fun c => if overlaps (c.1 ++ c.2) tgt then (c.1, union c.2 extra) else c)
+def cond (t : Bool) (l : List Obj) : List Obj := if t then l else []
+
+/-- `a` is stored into the objects `tgt`: names denoting a target now hold `a` and reach `b`;
+names that hold or reach a target now reach both -/
+def link (P : Pts) (tgt a b : List Obj) : Pts :=
+  P.map (fun c =>
+    { top := c.top
+      kids := union c.kids (cond (overlaps c.top tgt) a)
+      deep := union (union c.deep (cond (overlaps c.top tgt) b)) (cond (overlaps (c.kids ++ c.deep) tgt) (a ++ b)) })
 
 def argCell (P : Pts) (args : List (Option Var)) (j : Nat) : Cell :=
   match args.getD j none with
   | some v => P.get v
-  | none => ([], [])
+  | none => {}
 
 def sel (P : Pts) (args : List (Option Var)) (ret : Var) : Src → List Obj
-  | .top j => (argCell P args j).1
-  | .deep j => (argCell P args j).2
+  | .top j => (argCell P args j).top
+  | .below j => (argCell P args j).kids ++ (argCell P args j).deep
   | .fresh => [.loc ret]
   | .glob g => [.glob g]
 
@@ -99,29 +113,34 @@ def summaryOf (S : List Summary) (f : Nat) : Summary := S.getD f {}
 
 /-- effect of one statement on the name table -/
 def step (S : List Summary) : Stmt → Pts → Pts
-  | .param x i, P => P.add x ([.root i], [.inner i])
-  | .global x g, P => P.add x ([.glob g], [.glob g])
+  | .param x i, P => P.add x { top := [.root i], kids := [.inner i], deep := [.inner i] }
+  | .global x g, P => P.add x { top := [.glob g], kids := [.glob g], deep := [.glob g] }
   | .alias x ys, P => ys.foldl (fun Q y => Q.add x (P.get y)) P
-  | .elem x y, P => P.add x ((P.get y).2, (P.get y).2)
-  | .fresh x, P => P.add x ([.loc x], [])
-  | .shallow x ys, P => P.add x ([.loc x], ys.flatMap (fun y => (P.get y).2))
-  | .pack x ys, P => P.add x ([.loc x], ys.flatMap (fun y => (P.get y).1 ++ (P.get y).2))
-  | .store x y, P => link P (P.get x).1 ((P.get y).1 ++ (P.get y).2)
+  | .elem x y, P => P.add x { top := (P.get y).kids, kids := (P.get y).deep, deep := (P.get y).deep }
+  | .fresh x, P => P.add x { top := [.loc x] }
+  | .shallow x ys, P =>
+    P.add x { top := [.loc x], kids := ys.flatMap (fun y => (P.get y).kids), deep := ys.flatMap (fun y => (P.get y).deep) }
+  | .pack x ys, P =>
+    P.add x { top := [.loc x], kids := ys.flatMap (fun y => (P.get y).top),
+              deep := ys.flatMap (fun y => (P.get y).kids ++ (P.get y).deep) }
+  | .store x y, P => link P (P.get x).top (P.get y).top ((P.get y).kids ++ (P.get y).deep)
   | .write _, P => P
   | .gwrite _, P => P
   | .call ret f args, P =>
     let s := summaryOf S f
-    let P1 := s.links.foldl (fun Q l => link Q (argCell P args l.1).1 (sel P args ret l.2)) P
-    P1.add ret (s.retTop.flatMap (sel P args ret), s.retDeep.flatMap (sel P args ret))
+    let P1 := s.links.foldl (fun Q l =>
+      link Q (argCell P args l.1).top (cond l.2.1 (sel P args ret l.2.2)) (cond (!l.2.1) (sel P args ret l.2.2))) P
+    P1.add ret { top := s.retTop.flatMap (sel P args ret), kids := s.retKids.flatMap (sel P args ret),
+                 deep := s.retDeep.flatMap (sel P args ret) }
 
 /-- objects whose version one statement bumps -/
 def targets (S : List Summary) : Stmt → Pts → List Obj
-  | .store x _, P => (P.get x).1
-  | .write x, P => (P.get x).1
+  | .store x _, P => (P.get x).top
+  | .write x, P => (P.get x).top
   | .gwrite g, _ => [.glob g]
   | .call _ f args, P =>
     let s := summaryOf S f
-    s.writes.flatMap (fun w => if w.2 then (argCell P args w.1).2 else (argCell P args w.1).1)
+    s.writes.flatMap (fun w => if w.2 then (argCell P args w.1).kids ++ (argCell P args w.1).deep else (argCell P args w.1).top)
       ++ s.globals.map Obj.glob
   | _, _ => []
 
@@ -158,7 +177,7 @@ def iterate (S : List Summary) (p : List Stmt) : Nat → Pts → Pts
 
 def analyse (S : List Summary) (p : List Stmt) (fuel : Nat) : Pts := iterate S p fuel []
 
-def cellSub (c d : Cell) : Bool := sub c.1 d.1 && sub c.2 d.2
+def cellSub (c d : Cell) : Bool := sub c.top d.top && sub c.kids d.kids && sub c.deep d.deep
 
 /-- `P ⊑ A` on the cells `P` has (cells beyond its length are empty) -/
 def leB (P A : Pts) : Bool := (List.range P.length).all (fun z => cellSub (P.get z) (A.get z))
@@ -171,6 +190,10 @@ def writeSet (S : List Summary) (p : List Stmt) (A : Pts) : List Obj := p.flatMa
 
 def analysisOK (S : List Summary) (p : List Stmt) (fuel : Nat) : Bool := isPost S p (analyse S p fuel)
 
+def dedup {α : Type} [DecidableEq α] : List α → List α
+  | [] => []
+  | a :: l => if a ∈ dedup l then dedup l else a :: dedup l
+
 def paramOf : Obj → Option Nat
   | .root i => some i
   | .inner i => some i
@@ -182,17 +205,17 @@ def globOf : Obj → Option Nat
 
 /-- parameters the program may write (the object itself or anything below it) -/
 def mayWrite (S : List Summary) (p : List Stmt) (fuel : Nat) : List Nat :=
-  ((writeSet S p (analyse S p fuel)).filterMap paramOf).eraseDups
+  dedup ((writeSet S p (analyse S p fuel)).filterMap paramOf)
 
 /-- process-wide objects the program may write -/
 def mayWriteGlobal (S : List Summary) (p : List Stmt) (fuel : Nat) : List Nat :=
-  ((writeSet S p (analyse S p fuel)).filterMap globOf).eraseDups
+  dedup ((writeSet S p (analyse S p fuel)).filterMap globOf)
 
 /-! ## summaries (interprocedural step) -/
 
 def srcOfObj : Obj → Src
   | .root j => .top j
-  | .inner j => .deep j
+  | .inner j => .below j
   | .glob g => .glob g
   | .loc _ => .fresh
 
@@ -200,17 +223,20 @@ def srcOfObj : Obj → Src
 def summarize (S : List Summary) (p : List Stmt) (fuel nparams ret : Nat) : Summary :=
   let A := analyse S p fuel
   let w := writeSet S p A
-  { writes := (w.filterMap (fun o => match o with
-                | .root j => some (j, false) | .inner j => some (j, true) | _ => none)).eraseDups
-    globals := (w.filterMap globOf).eraseDups
-    retTop := ((A.get ret).1.map srcOfObj).eraseDups
-    retDeep := ((A.get ret).2.map srcOfObj).eraseDups
-    links := ((List.range nparams).flatMap (fun j =>
-        ((A.get j).2.filter (fun o => o != .inner j)).map (fun o => (j, srcOfObj o)))).eraseDups }
+  { writes := dedup (w.filterMap (fun o => match o with
+                | .root j => some (j, false) | .inner j => some (j, true) | _ => none))
+    globals := dedup (w.filterMap globOf)
+    retTop := dedup ((A.get ret).top.map srcOfObj)
+    retKids := dedup ((A.get ret).kids.map srcOfObj)
+    retDeep := dedup ((A.get ret).deep.map srcOfObj)
+    links := dedup ((List.range nparams).flatMap (fun j =>
+        ((A.get j).kids.filter (fun o => o != .inner j)).map (fun o => (j, true, srcOfObj o)) ++
+        ((A.get j).deep.filter (fun o => o != .inner j)).map (fun o => (j, false, srcOfObj o)))) }
 
 def summarySub (a b : Summary) : Bool :=
   a.writes.all (fun w => b.writes.contains w) && a.globals.all (fun g => b.globals.contains g) &&
-  a.retTop.all (fun s => b.retTop.contains s) && a.retDeep.all (fun s => b.retDeep.contains s) &&
+  a.retTop.all (fun s => b.retTop.contains s) && a.retKids.all (fun s => b.retKids.contains s) &&
+  a.retDeep.all (fun s => b.retDeep.contains s) &&
   a.links.all (fun l => b.links.contains l)
 
 structure FnInfo where
